@@ -303,7 +303,11 @@ type Event struct {
 	syms []string
 	Init bool // assumed while executing package initialisers: kept only when relevant
 	Cut  bool // loop cut marker: older quantified assumptions are dropped
+	Tag  string // loop invariant this assumption came from ("<fn>#L<ord>/inv#<j>")
 }
+
+// curTag tags the assumptions made while a loop invariant is being assumed.
+var curTag string
 
 var inInitPhase bool
 
@@ -362,6 +366,9 @@ type Check struct {
 	Detail string
 	Cover  bool // a reachability cover (expect sat) rather than an obligation
 	Canary bool // must not be unsat
+	Focus  string // loop invariant this check re-establishes (see Event.Tag)
+	AltGoal T     // stronger goal used at the focus level (quantified earlier invariants dropped from the antecedent)
+	AltGoal2 T    // the same, keeping the simple quantified earlier invariants (level 31)
 	body   string
 }
 
@@ -476,6 +483,7 @@ func (c *Check) buildBody(level int) string {
 			}
 		}
 	}
+	focus := level >= 30 && c.Focus != ""
 	for i, e := range evs { // newest first
 		if e.Cut {
 			cutSeen = true
@@ -486,6 +494,13 @@ func (c *Check) buildBody(level int) string {
 		}
 		if dropQ[i] {
 			continue
+		}
+		if focus && e.Tag != "" && e.Tag != c.Focus && e.Def == "" && strings.Contains(e.Text, "(forall ") {
+			// focus level 30: of the loop's quantified invariants only the one being re-established is kept;
+			// level 31 also keeps the simple ones (a single universal quantifier, no existential)
+			if level < 31 || !simpleQuant(e.Text) {
+				continue
+			}
 		}
 		switch {
 		case e.Def != "":
@@ -549,8 +564,15 @@ func (c *Check) buildBody(level int) string {
 	if c.Cover {
 		body.WriteString("(check-sat)\n")
 	} else {
+		goal := c.Goal.S
+		if focus && c.AltGoal.S != "" {
+			goal = c.AltGoal.S
+			if level >= 31 && c.AltGoal2.S != "" {
+				goal = c.AltGoal2.S
+			}
+		}
 		body.WriteString("(assert (not ")
-		body.WriteString(c.Goal.S)
+		body.WriteString(goal)
 		body.WriteString("))\n(check-sat)\n(get-model)\n")
 	}
 	decls, axs := declsFor(body.String(), level)
@@ -710,4 +732,9 @@ func subT(a, b T) T {
 		return a
 	}
 	return app(SInt, "-", a, b)
+}
+
+// simpleQuant: one universal quantifier and no existential one.
+func simpleQuant(s string) bool {
+	return strings.Count(s, "(forall ") == 1 && !strings.Contains(s, "(exists ")
 }
